@@ -12,7 +12,7 @@
     [fx_enotdir]  ENOTDIR is treated like "missing" in the directory and symlink passes;
     [fx_taint]    everything below a wounded directory is wounded without looking at the disk.
     The current code is [fixed]. *)
-From Wharf Require Import Base.Prelude FS.Tree FS.Ops.
+From Wharf Require Import FS.Light FS.Tree FS.Ops.
 
 Record build := mkBuild {
   b_dirs : list path;
